@@ -251,6 +251,20 @@ fn seeds(prop: &str) -> Vec<(&'static str, Vec<Op>)> {
             Op::Flush,
         ],
     ));
+    // (costly to rebuild: only when asked for by name, see the L-keepall jobs)
+    if (prop == "C05" || prop == "C01") && MANY_FILES_SEED.load(std::sync::atomic::Ordering::Relaxed) {
+        // flushed files of three 5 KiB entries each, compacted as they come: where nothing is
+        // collected and every entry gets a file of its own (row L-keepall) the merges at the
+        // oldest levels write six, then twelve output files -- more than ten -- and later merges
+        // read that level back
+        let mut many = vec![];
+        for _ in 0..6 {
+            many.extend([Op::PutHuge(0), Op::PutHuge(1), Op::PutHuge(2), Op::Flush, Op::CompactAll]);
+        }
+        // one more flushed file: the next compactions merge into the twelve-file level
+        many.extend([Op::PutHuge(0), Op::PutHuge(1), Op::PutHuge(2), Op::Flush]);
+        v.push(("merges-writing-many-files", many));
+    }
     if prop == "C05" || prop == "C08" || prop == "C04" {
         // every entry in a file of its own: an old single-key file at the oldest level, and a
         // newer file around it in level 0 (the next compaction re-creates the old file)
@@ -356,6 +370,7 @@ fn seeds(prop: &str) -> Vec<(&'static str, Vec<Op>)> {
     v
 }
 
+static MANY_FILES_SEED: std::sync::atomic::AtomicBool = std::sync::atomic::AtomicBool::new(false);
 static TREE_SUBJECT: std::sync::atomic::AtomicBool = std::sync::atomic::AtomicBool::new(false);
 static DEADLINE: std::sync::OnceLock<std::time::Instant> = std::sync::OnceLock::new();
 static EXPIRED: std::sync::atomic::AtomicBool = std::sync::atomic::AtomicBool::new(false);
@@ -847,6 +862,9 @@ fn main() {
         .collect();
     let seed_depth = args.usize("seed-depth", depth.saturating_sub(1));
     let only_seed = args.get("only-seed");
+    if only_seed == Some("merges-writing-many-files") {
+        MANY_FILES_SEED.store(true, std::sync::atomic::Ordering::Relaxed);
+    }
     // work items: (cfg, seed, first op) -- the first level of the tree is the partition
     let mut items = vec![];
     for cfg in cfgs.iter() {
